@@ -454,6 +454,10 @@ class RevInputHandler(InputInterceptionDataHandler):
         return {'wrapped': result, 'nargs': len(args)}
 
     def restore_input_from_recording(self, recorded_data, args, kwargs):
+        call = self.env.cur() or {}
+        if call.get('fault') == 'restore_raises':
+            self.env.run.fault('restore_raises')
+            raise RuntimeError('injected: input handler cannot restore this value')
         self.env.run.probe('handler_restored')
         return recorded_data['wrapped']
 
